@@ -861,10 +861,16 @@ func (w *_assembler) assignUInt(uin datamodel.UintNode) error {
 		if err != nil {
 			return err
 		}
-		if kindUint[w.val.Kind()] {
+		goType := nonPtrType(w.val)
+		if kindUint[goType.Kind()] {
+			if reflect.Zero(goType).OverflowUint(i) {
+				return fmt.Errorf("bindnode: integer %d overflows %s", i, goType)
+			}
 			w.createNonPtrVal().SetUint(i)
 		} else {
-			// TODO: check for overflow
+			if i > math.MaxInt64 || reflect.Zero(goType).OverflowInt(int64(i)) {
+				return fmt.Errorf("bindnode: integer %d overflows %s", i, goType)
+			}
 			w.createNonPtrVal().SetInt(int64(i))
 		}
 	}
@@ -880,7 +886,6 @@ func (w *_assembler) AssignInt(i int64) error {
 	if err := compatibleKind(w.schemaType, datamodel.Kind_Int); err != nil {
 		return err
 	}
-	// TODO: check for overflow
 	customConverter := w.cfg.converterFor(w.schemaType.Name(), w.val)
 	_, isAny := w.schemaType.(*schema.TypeAny)
 	if customConverter != nil {
@@ -904,13 +909,19 @@ func (w *_assembler) AssignInt(i int64) error {
 		if isAny {
 			// Any means the Go type must receive a datamodel.Node
 			w.createNonPtrVal().Set(reflect.ValueOf(basicnode.NewInt(i)))
-		} else if kindUint[w.val.Kind()] {
+		} else if goType := nonPtrType(w.val); kindUint[goType.Kind()] {
 			if i < 0 {
 				// TODO: write a test
 				return fmt.Errorf("bindnode: cannot assign negative integer to %s", w.val.Type())
 			}
+			if reflect.Zero(goType).OverflowUint(uint64(i)) {
+				return fmt.Errorf("bindnode: integer %d overflows %s", i, goType)
+			}
 			w.createNonPtrVal().SetUint(uint64(i))
 		} else {
+			if reflect.Zero(goType).OverflowInt(i) {
+				return fmt.Errorf("bindnode: integer %d overflows %s", i, goType)
+			}
 			w.createNonPtrVal().SetInt(i)
 		}
 	}
